@@ -66,6 +66,7 @@ type Obligation struct {
 	Critical      []Critical             `json:"critical"`
 	Clock      string                    `json:"clock"`
 	GhostFS    bool                      `json:"ghost_fs"`
+	CrashFiles []string                  `json:"crash_files"`
 	Expect     string                    `json:"expect"` // "violated": a sensitivity twin that MUST fail
 	guards     map[string]*Guard
 
@@ -508,11 +509,12 @@ type ReplayFile struct {
 	Pos        string                          `json:"pos"`
 	Stack      []string                        `json:"stack"`
 	Stubs      map[string]string               `json:"stubs,omitempty"`
+	CrashFiles []string                        `json:"crash_files,omitempty"`
 }
 
 func writeReplay(prop string, ob *Obligation, f Failure, n int) string {
 	rf := ReplayFile{Property: prop, Obligation: ob.Name, Harness: ob.fn.Name(), Pkg: ob.pkgPath, Choices: f.Choices, Params: ob.params,
-		Values: map[string]uint64{}, Ghost: map[string]map[string][][2]uint64{}, Kind: f.Kind, Failed: f.Msg, Pos: f.Pos, Stack: f.Stack, Stubs: ob.StubSpec}
+		Values: map[string]uint64{}, Ghost: map[string]map[string][][2]uint64{}, Kind: f.Kind, Failed: f.Msg, Pos: f.Pos, Stack: f.Stack, Stubs: ob.StubSpec, CrashFiles: ob.CrashFiles}
 	gi := map[string]uint64{}
 	gv := map[string]uint64{}
 	for k, v := range f.Model {
@@ -582,8 +584,8 @@ func nativeReplay(l *Loaded, path string) (string, string, error) {
 		ov["Replace"][virt] = real
 	}
 	ov["Replace"][filepath.Join(repoDir, rel, "zz_verif_replay_test.go")] = testFile
-	if len(rf.Stubs) > 0 {
-		plan, err := buildHooks(l, rf.Stubs)
+	if len(rf.Stubs) > 0 || len(rf.CrashFiles) > 0 {
+		plan, err := buildHooks(l, rf.Stubs, rf.CrashFiles)
 		if err != nil {
 			return "", "", fmt.Errorf("native interception of stubs: %v", err)
 		}
